@@ -37,8 +37,13 @@ else
   echo "no demo test file at $DEMO"; W=-1; WO=-1; S=-1
 fi
 echo "demo with change rc=$W (want != 0); without rc=$WO (want 0); suite with change rc=$S (want 0)"
-cd /verif
-# the checks run against the scratch worktree itself (it holds the change); /repo is never touched
+# the checks run from a scratch clone of the committed /verif (own build output, own work/evidence/
+# replays directories) against the scratch worktree itself (it holds the change): neither /repo nor
+# /verif's evidence is touched, and other runs in /verif are not disturbed
+VS=/tmp/verif_seed
+[ -d $VS/.git ] || git clone -q /verif $VS
+git -C $VS pull -q 2>/dev/null
+cd $VS
 mv "$WT/$DEMO" /tmp/seeded_demo_hold_$NAME.rs 2>/dev/null
 RES=""
 for c in $CHECKS; do
@@ -47,7 +52,8 @@ for c in $CHECKS; do
   grep -m3 "^failure" "$OUT/check_$c.log"
 done
 mv /tmp/seeded_demo_hold_$NAME.rs "$WT/$DEMO" 2>/dev/null
-rm -rf /verif/replays/*/found_*
+rm -rf $VS/replays/*/found_*
+cd /verif
 echo "RESULT $NAME demo_with=$W demo_without=$WO suite=$S checks:$RES"
 python3 - "$OUT" "$W" "$WO" "$S" "$RES" <<'PY'
 import json,sys
